@@ -646,7 +646,7 @@ class EvalMixin:
             h = self.field_hint(obj.h, attr)
             v = self.hget(st, attr, obj.t)
             if h is None or h.startswith("Opt[") or h in ("Any", "val"):
-                st.assume(z3.Implies(Val.is_RefV(v), z3.And(Val.rv(v) >= 1, Val.rv(v) <= self.harr(st, "$alloc"))))
+                st.assume(z3.Implies(Val.is_RefV(v), z3.And(Val.rv(v) >= 1, Val.rv(v) <= self.alloc_bound(st, Val.rv(v)))))
             return [Res(st, self.from_val(st, v, h))]
         if k == "obj":
             if attr == "__class__":
